@@ -5,10 +5,8 @@ set -e
 cd "$(dirname "$0")"
 export CARGO_NET_OFFLINE=true
 mkdir -p build evidence replays coq/Gen
-if [ -d tools/extract ]; then
-  (cd tools/extract && cargo build --offline --quiet --release)
-  ./tools/extract/target/release/extract "${VERIF_REPO:-/repo}/src" coq/Gen
-fi
+(cd tools/extract && cargo build --offline --quiet --release)
+./check --prepare
 (cd coq && coq_makefile -f _CoqProject -o Makefile >/dev/null && timeout 3000 make -j16 >/dev/null)
 (cd driver && sh build.sh)
 python3 - <<'PY'
